@@ -138,6 +138,17 @@ def concretise(name, h, f, x, rnd, jitter=False):
     return text, canon, used, ctx, s
 
 
+#: formats whose configuration string is "the hash up to and including the separator before the digest" (crypt(3) style "$id$salt$")
+CONFIG_TRAILING_SEP = {"md5_crypt", "apr_md5_crypt", "sha256_crypt", "sha512_crypt", "ldap_md5_crypt", "ldap_sha256_crypt", "ldap_sha512_crypt", "django_salted_sha1",
+                       "django_salted_md5", "sun_md5_crypt", "sha1_crypt"}
+
+
+def config_of(name, h, text):
+    if name not in CONFIG_TRAILING_SEP or "$" not in text:
+        return None
+    return text[: text.rindex("$") + 1]
+
+
 def run(chk):
     warnings.simplefilter("ignore")
     quick = chk.tier == "quick"
@@ -230,6 +241,28 @@ def run(chk):
             if ok is not True:
                 chk.violation(f"{name}:verify:{x['form']}", f"{name}: the {x['form']} spelling does not verify exactly its password ({ok})", detail)
                 break
+            if not as_bytes and hasattr(h, "genhash"):
+                # history: another password is tried against the string with genhash(); the string itself must read as before
+                try:
+                    other = h.genhash(PW + "x", text, **ctx)
+                    again = h.verify(PW, text, **ctx) is True and h.verify(PW + "x", text, **ctx) is False
+                    back2 = None if (hasattr(h, "wrapped") or not hasattr(h, "from_string")) else h.from_string(text).to_string()
+                except Exception as ex:
+                    chk.violation(f"{name}:genhash-then-parse:{type(ex).__name__}", f"{name}: genhash(other password, hash) / re-parsing raised {type(ex).__name__}: {ex}", detail)
+                    break
+                if not again or (back2 is not None and back2 not in (canon, text, generated)) or other == text:
+                    chk.violation(f"{name}:genhash-then-parse", f"{name}: after genhash(other password, hash) the same string verifies / re-renders differently ({again}, {back2!r})", detail)
+                    break
+                # the configuration part alone (the hash without its digest) reproduces the hash
+                cfg = config_of(name, h, text)
+                if cfg is not None:
+                    try:
+                        redo = h.genhash(PW, cfg, **ctx)
+                    except Exception as ex:
+                        redo = f"{type(ex).__name__}: {ex}"
+                    if redo not in (text, canon, generated):
+                        chk.violation(f"{name}:config-string", f"{name}: genhash(password, {cfg!r}) - the hash without its digest - gives {str(redo)[:80]!r} instead of the hash", detail)
+                        break
         chk.traces += 1
     # libpass inspection helpers and PHC records on real strings
     from libpass.inspect.sha_crypt import inspect_sha_crypt, SHA256CryptInfo, SHA512CryptInfo
@@ -259,6 +292,23 @@ def run(chk):
             cases.append(("inspect_bcrypt", H.bcrypt.using(rounds=rounds, ident=ident).hash(PW), inspect_bcrypt_hash))
     for rounds in (4, 5):
         cases.append(("inspect_phc/bcrypt-sha256", H.bcrypt_sha256.using(rounds=rounds).hash(PW), lambda s: inspect_phc(s, BcryptSHA256PHCV2)))
+    try:
+        import bcrypt as _bc
+        from libpass.hashers.bcrypt import BcryptSHA256Hasher, BcryptHasher
+        for hs_cost, salt_cost in ((5, 4), (4, 5), (5, 5)):
+            for cls, insp in ((BcryptSHA256Hasher, lambda s: inspect_phc(s, BcryptSHA256PHCV2)), (BcryptHasher, inspect_bcrypt_hash)):
+                hsr = cls(rounds=hs_cost)
+                made = hsr.hash(PW, salt=_bc.gensalt(salt_cost))
+                info = insp(made)
+                chk.count(("libpass-explicit-salt", cls.__name__, hs_cost, salt_cost))
+                chk.action("libpass-inspect")
+                used = getattr(info, "rounds", None)
+                ok = hsr.verify(made, PW) and not hsr.verify(made, PW + "x") and (H.bcrypt_sha256 if cls is BcryptSHA256Hasher else H.bcrypt).verify(PW, made)
+                if used != salt_cost or not ok or info.as_str() != made:
+                    chk.violation(f"libpass:{cls.__name__}:explicit-salt", f"{cls.__name__}(rounds={hs_cost}).hash(pw, salt of cost {salt_cost}) made {made}: inspection reports cost {used}, verifies: {ok}",
+                                  {"hash": made, "hasher_rounds": hs_cost, "salt_cost": salt_cost})
+    except ImportError as ex:
+        chk.uncovered.append(f"libpass bcrypt hashers: {ex}")
     for label, s, fn in cases:
         chk.count(("libpass", label, len(s)))
         chk.action("libpass-inspect")
